@@ -705,7 +705,7 @@ def idx_case(ctx, stream, version, hs, es, cs, fmt=1, mode="", workers=None, mod
 
 def _stream_index(ctx, workers):
     rng = ctx.rng
-    n = ctx.budget(70)
+    n = ctx.budget(150)
     for i in range(n):
         version = rng.choice([1, 2, 2, 2, 3])
         hs = 32 if (version == 2 and rng.random() < 0.35) else 20
@@ -855,13 +855,14 @@ def gen_objects(rng, big_ok=True):
                 objs.append((3, pool[:sz - len(tail)] + tail if rng.random() < 0.5 else pool[:sz] + tail))
             elif k < 0.85:
                 objs.append((3, rng.randbytes(rng.choice([0, 1, 15, 16]))))
-            elif objs:
+            elif objs and rng.random() < 0.3:
                 objs.append(rng.choice(objs))
         return objs
     n = rng.choice([0, 1, 1, 2, 3, 5, 8, 13, 21, 40])
     sizes = [0, 1, 15, 16, 17, 127, 128, 129, 2047, 2048, 2049, 300, 1000]
     fam_base = pool[: rng.choice([40, 200, 700])]
     fresh = 300                                                # budget of fresh random bytes in big-ish blobs
+    dups = rng.random() < 0.1                                  # one set in ten passes some object twice
     while len(objs) < n:
         k = rng.random()
         if k < 0.45:
@@ -885,7 +886,7 @@ def gen_objects(rng, big_ok=True):
                 objs.append((3, pool[:sz - 1] + bytes([rng.randrange(256)])))
         elif k < 0.84:
             objs.append((3, b""))
-        elif k < 0.9 and objs:
+        elif k < 0.88 and objs and dups:
             objs.append(rng.choice(objs))                      # duplicated content (same object again)
         else:
             objs.append(_structured_object(rng, objs))
@@ -908,7 +909,7 @@ def _structured_object(rng, objs):
 
 def gen_pack_opts(rng):
     return {
-        "path": rng.choice(["objects", "objects", "records", "records", "reuse", "reuse-comp"]),
+        "path": rng.choice(["objects"] * 6 + ["records"] * 7 + ["reuse"] * 4 + ["reuse-comp"]),
         "deltify": rng.random() < 0.6,
         "window": rng.choice([None, 0, 1, 10]),
         "level": rng.choice([-1, -1, 0, 1, 6, 9]),
@@ -1258,10 +1259,11 @@ def _git_reads_dulwich(ctx, stream, case, base, pack, idxb, opts, want, ies):
             # --strict also checks object syntax and connectivity of the objects *in* the pack; blobs named by our
             # synthetic trees need not be present, which git reports differently ("did not receive expected object")
             msg = err.decode(errors="replace")
-            if "fsck" in msg or "missing" in msg.lower() or "did not receive" in msg:
+            if "did not receive expected object" in msg:
                 rc, out, err = _git(["index-pack", "-o", str(gd / "git.idx"), str(pk / (name + ".pack"))], gd)
+                key = "strict-relaxed: " + msg.strip().splitlines()[-1][:60]
                 ctx.hist.setdefault(stream, {})
-                ctx.hist[stream]["strict-relaxed(connectivity)"] = ctx.hist[stream].get("strict-relaxed(connectivity)", 0) + 1
+                ctx.hist[stream][key] = ctx.hist[stream].get(key, 0) + 1
         if rc != 0:
             ctx.oracle_fail(stream, case, f"git index-pack rejects a pack dulwich wrote: {err.decode(errors='replace')[:200]}")
             return
@@ -1292,15 +1294,16 @@ def _git_reads_dulwich(ctx, stream, case, base, pack, idxb, opts, want, ies):
 
 
 def gen_git_history(rng, depth_bias=True):
-    """Objects for `git pack-objects`: long families of similar blobs so that chains approach --depth."""
+    """Objects for `git pack-objects`: sliding-window series of blobs (each version drops a line in front and gains one
+    at the end, sizes strictly decreasing so that git's size-sorted delta search walks the series in order): with
+    --threads=1 the chain grows by one per version until --depth stops it."""
     objs = []
-    nfam = rng.choice([1, 1, 2])
-    for _ in range(nfam):
-        body = [rng.randbytes(30).hex().encode() + b"\n" for _ in range(rng.choice([20, 60]))]
-        for _ in range(rng.choice([5, 30, 60, 75])):
-            p = rng.randrange(len(body) + 1)
-            body[p:p] = [rng.randbytes(20).hex().encode() + b"\n"]
-            objs.append((3, b"".join(body)))
+    for _ in range(rng.choice([1, 1, 2])):
+        w = rng.choice([20, 60])
+        n = rng.choice([5, 30, 60, 75])
+        lines = [rng.randbytes(30).hex().encode() + b"\n" for _ in range(n + w)]
+        for i in range(n):
+            objs.append((3, b"".join(lines[i:i + w]) + b"x" * (n - i)))
     for sz in rng.sample([0, 15, 16, 127, 128, 2047, 2048, 65535, 65536], 3):
         objs.append((3, (rng.randbytes(50) * (sz // 50 + 1))[:sz]))
     for _ in range(3):
@@ -1326,6 +1329,8 @@ def git_pack_case(ctx, stream, objs, gopts):
             if rc != 0 or out.strip().decode() != nm.hex():
                 raise core.InfraError(f"git hash-object: {rc} {out!r} {err!r} (want {nm.hex()})")
         args = ["pack-objects", "-q", f"--depth={gopts['depth']}", f"--window={gopts['window']}"]
+        if gopts.get("threads"):
+            args.append(f"--threads={gopts['threads']}")
         if gopts["ofs"]:
             args.append("--delta-base-offset")
         if gopts.get("idxv"):
@@ -1380,8 +1385,8 @@ def git_pack_case(ctx, stream, objs, gopts):
 
 def _stream_packs(ctx, workers):
     rng = ctx.rng
-    n = ctx.budget(60)
-    ngit = ctx.budget(10, mult=6)
+    n = ctx.budget(160)
+    ngit = ctx.budget(25, mult=6)
     for i in range(n):
         objs = gen_objects(rng, big_ok=(i % 4 == 0))
         opts = gen_pack_opts(rng)
@@ -1394,10 +1399,10 @@ def _stream_packs(ctx, workers):
         for v in (1, 2, 3):
             opts = {"path": path, "deltify": True, "window": None, "level": -1, "version": v, "cache": None, "sub": 1, "chunked": False}
             pack_case(ctx, "pack", objs, opts, workers=workers, model=True, git=(v == 2))
-    for i in range(ctx.budget(5, mult=6)):
+    for i in range(ctx.budget(12, mult=6)):
         objs = gen_git_history(rng)
-        gopts = {"depth": rng.choice([50, 50, 10, 1]), "window": rng.choice([10, 10, 50]), "ofs": rng.random() < 0.5,
-                 "idxv": rng.choice([None, None, 1])}
+        gopts = {"depth": rng.choice([50, 50, 50, 10, 1]), "window": rng.choice([10, 10, 50]), "ofs": rng.random() < 0.5,
+                 "idxv": rng.choice([None, None, 1]), "threads": rng.choice([1, 1, 1, None])}
         git_pack_case(ctx, "gitpack", objs, gopts)
 
 
@@ -1512,7 +1517,7 @@ def search(ctx: core.Ctx):
             if ctx.oracle_failures:
                 return
         for i in range(ctx.budget(6)):
-            git_pack_case(ctx, "search.gitpack", gen_git_history(rng), {"depth": 50, "window": 10, "ofs": bool(i % 2), "idxv": None})
+            git_pack_case(ctx, "search.gitpack", gen_git_history(rng), {"depth": 50, "window": 10, "ofs": bool(i % 2), "idxv": None, "threads": 1})
             if ctx.oracle_failures:
                 return
     finally:
